@@ -67,3 +67,18 @@ def effective(o, cli, user, home, found, defaults):
     if o in HOME_OPTS and found and effective("ofxhome", cli, user, home, found, defaults):
         return getattr(home, o)
     return defaults[o]
+
+
+TYPES = ["checking", "savings", "moneymrkt", "creditline", "creditcard", "investment"]
+TYPE_OF = {"CHECKING": "checking", "SAVINGS": "savings", "MONEYMRKT": "moneymrkt", "CREDITLINE": "creditline"}
+
+
+def configured_type_without_active(infos, userfile):
+    """the known finding: the configuration lists accounts of a type for which the server reports no ACTIVE account"""
+    active = set()
+    for kind, acct, typ, status in infos:
+        if status == "ACTIVE":
+            active.add(TYPE_OF.get(typ) if kind == "bank" else ("creditcard" if kind == "cc" else "investment"))
+    return any(t in TYPES and t not in active for t in (userfile or {}))
+
+
